@@ -203,4 +203,64 @@ def resetIds (runId : Bytes) (ids : List Bytes) : List Bytes :=
 def resetReqs (t : Target) (name runId : Bytes) (ids : List Bytes) (order : List Nat) : List Req :=
   delCheckpointsReqs t name (resetIds runId ids) order
 
+/-! ### `UpdateCheckpoint` with the database order of its clean-up MODELLED (not a parameter)
+
+  `updateReqs` takes the order `o2` in which `DelCheckpoint` visits the databases as a parameter (every order is
+  proved safe). Since 837e4af / 6d4dd34 `DelCheckpoint` = `DelCheckpoints [oldId]`: every record of the old label is
+  read first (one that cannot be read aborts before anything is deleted: the error ends `UpdateCheckpoint`, the hash
+  entry of the old label stays), then one HDEL per database listed by `INFO keyspace`, ascending (offset, mtime, db). -/
+
+/-- the database a request executes in (hash requests: 0) -/
+def reqDbOf : Req → Nat
+  | .hsetCp d _ _ => d
+  | .hdelCp d _ _ => d
+  | .delKeys d _ => d
+  | _ => 0
+
+/-- (key name, old label) when `UpdateCheckpoint` has an old label to clean up — the condition inside `updateReqs` -/
+def updateOld (ver : Bytes) (t : Target) (loc : Bytes) (ids : List Bytes) (o1 : List Nat) : Option (Bytes × Bytes) :=
+  match ids with
+  | [] => none
+  | id1 :: _ =>
+    match getHash t.hash ids with
+    | none => none
+    | some (cpName, cpRunId) =>
+      if cpName ≠ loc ∨ id1 ≠ cpRunId then
+        let got : Option (CpInfo × Int) :=
+          if cpName ≠ [] then getCheckpoint ver t cpName ids o1
+          else some ({ version := ver }, 0)
+        match got with
+        | none => none
+        | some (cpKv, _) =>
+          if cpKv.runId ≠ [] ∧ cpKv.runId ≠ qmark ∧ ¬ (cpKv.runId = id1 ∧ cpName = loc) then some (cpName, cpKv.runId)
+          else none
+      else none
+
+/-- `UpdateCheckpoint(outCli, loc, ids)` as the code runs it: `order` = the non-empty databases before the call (any
+    order: the sort key (offset, mtime, db) is total for ONE label, the result does not depend on it) -/
+def updateReqsReal (ver : Bytes) (t : Target) (loc : Bytes) (ids : List Bytes) (o1 order : List Nat) (now : Int) : List Req :=
+  let head := updateReqs ver t loc ids o1 [] now
+  match updateOld ver t loc ids o1 with
+  | none => head
+  | some (cpName, oldId) =>
+    let t2 := applyAll t (head.take 2)
+    let order2 := order ++ (((head.take 2).map reqDbOf).filter (fun d => ¬ order.contains d)).eraseDups
+    match delRecords t2 cpName [oldId] order2 with
+    | none => head.take 2
+    | some rs => updateReqs ver t loc ids o1 ((delSort rs).map (·.db)) now
+
+/-- what the code issues is a prefix of `updateReqs` for SOME order `o2`: every statement proved for all orders and
+    all prefixes (`update_prefix_safe`, `reach_start_safe`, …) covers it -/
+theorem updateReqsReal_prefix (ver : Bytes) (t : Target) (loc : Bytes) (ids : List Bytes) (o1 order : List Nat) (now : Int) :
+    ∃ o2 k, updateReqsReal ver t loc ids o1 order now = (updateReqs ver t loc ids o1 o2 now).take k := by
+  unfold updateReqsReal
+  cases updateOld ver t loc ids o1 with
+  | none => exact ⟨[], _, (List.take_length).symm⟩
+  | some p =>
+    obtain ⟨cpName, oldId⟩ := p
+    simp only
+    split
+    · exact ⟨[], 2, rfl⟩
+    · exact ⟨_, _, (List.take_length).symm⟩
+
 end GunYu.BookSys
